@@ -93,6 +93,20 @@ def synth_corners_2d(cx, cy):
     return cells
 
 
+LON_POLICY = {'wide': False}
+
+
+def set_wide_longitudes(flag=True):
+    """Property drivers may switch on datasets in the 0..360 longitude convention / straddling 180 degrees."""
+    LON_POLICY['wide'] = bool(flag)
+
+
+def lon_origin(rng):
+    if LON_POLICY['wide'] and rng.random() < 0.3:
+        return float(rng.uniform(172, 186)) if rng.random() < 0.4 else float(rng.uniform(200, 330))
+    return float(rng.uniform(100, 150))
+
+
 def lattice(rng, nj, ni, *, jitter=0.15, kind='affine'):
     """(nj+1, ni+1) node lattice under a random map; every quad stays valid."""
     jj, ii = numpy.meshgrid(numpy.arange(nj + 1, dtype=float), numpy.arange(ni + 1, dtype=float), indexing='ij')
@@ -114,7 +128,7 @@ def lattice(rng, nj, ni, *, jitter=0.15, kind='affine'):
         phi = 0.1 + 0.12 * u
         x = r * numpy.cos(phi)
         y = r * numpy.sin(phi)
-    x0 = rng.uniform(100, 150)
+    x0 = lon_origin(rng)
     y0 = rng.uniform(-40, -10)
     return x + x0, y + y0
 
@@ -208,7 +222,7 @@ def make_cf1d(rng, *, ny=None, nx=None, bounds=None, coord_style=None, ident=Non
     coord_style = coord_style or pick(rng, ['dimcoord', 'dimcoord', 'coord', 'var'])
     ident = ident or pick(rng, ['units', 'standard_name', 'axis'])
     lat, lat_edges = _axis(rng, ny, rng.uniform(-40, -10), chance(rng, 0.4), chance(rng, 0.4))
-    lon, lon_edges = _axis(rng, nx, rng.uniform(100, 150), chance(rng, 0.3), chance(rng, 0.4))
+    lon, lon_edges = _axis(rng, nx, lon_origin(rng), chance(rng, 0.3), chance(rng, 0.4))
     m.lat, m.lon = lat, lon
     if bounds == 'none':
         lat_b = midpoint_bounds(lat.tolist())
